@@ -10,8 +10,8 @@ GNext == Next /\ hist' = Append(hist, last') /\ UNCHANGED inbox0
 GSpec == GInit /\ [][GNext]_<<vars, hist, inbox0>>
 
 \* one witness history per (state, last call): hide the histories
-View == <<cv, net, hi, nf, sec, bud, last, inbox0>>
-Record == [hi |-> hi, nf |-> nf, sec |-> sec, inbox0 |-> inbox0, h |-> hist]
+View == <<cv, net, hi, nf, runs, bud, last, inbox0>>
+Record == [hi |-> hi, nf |-> nf, inbox0 |-> inbox0, h |-> hist]
 \* all maximal histories
 EmitAll == (hist # <<>> /\ ~ENABLED Next) => PrintT("TRACE " \o ToJson(Record))
 \* one history per reachable (state, last call)
